@@ -56,7 +56,8 @@ def run_ctx(rep, tier, wanted, only=None, leaf_all=True, extra=None):
             rep.transferred.append(
                 {"function": role, "aspect": aspect, "instance": "%s_%s" % k, "proved_instance": "%s_%s" % v,
                  "why": "token-identical after renaming algorithm/family identifiers"
-                        + ("" if mode == "per_param" else " (parameter macros may differ: proved per parameter set in the thorough tier)")}
+                        + ("" if mode == "per_param" else (" (parameter macros may differ: proved per parameter set in the thorough tier)" if aspect != "tape" else
+                                                           " (parameter macros may differ; the tape aspect of the other parameter sets is not proved: memory, DESIGN.md sec. 8)"))}
             )
     if extra:
         try:
